@@ -47,6 +47,10 @@ func kfArgs(c *kfCase, passPrefix, failPrefix string) [][]byte {
 	args := make([][]byte, c.N)
 	for i := 1; i <= c.N; i++ {
 		switch {
+		case iskey[i] && i%3 == 0 && c.Pass[i-1]:
+			args[i-1] = []byte(passPrefix) // a key that IS a listed prefix, nothing after it
+		case iskey[i] && i%3 == 0:
+			args[i-1] = []byte(failPrefix)
 		case iskey[i] && c.Pass[i-1]:
 			args[i-1] = []byte(fmt.Sprintf("%s:k%d", passPrefix, i))
 		case iskey[i]:
